@@ -2,7 +2,7 @@
    Only statements.  Model: Async/Conn.v.  Proved: the epilogue clause and the reuse clause (Request::close).  The one-call clause over the
    whole loop is decided by the correspondence check + oracle (it is the clause that exposed and now guards
    against finding F3) until its proof completes. *)
-From FV Require Import Base.Bytes Gen.Generated Codec.Header Codec.Bodies Parser.ReqModel Parser.StreamModel Async.Conn Async.ConnWrites Async.ConnLoop Codec.Varint Codec.NV Codec.Vars Parser.ReqWire Parser.ReqTargets Async.ConnTotal Async.ConnReads Async.LoopTargets Async.LoopProofs.
+From FV Require Import Base.Bytes Gen.Generated Codec.Header Codec.Bodies Parser.ReqModel Parser.StreamModel Async.Conn Async.ConnWrites Async.ConnLoop Codec.Varint Codec.NV Codec.Vars Parser.ReqWire Parser.ReqTargets Async.ConnTotal Async.ConnReads Async.LoopTargets Async.LoopProofs Async.PeerTargets4 Async.PeerProofs4.
 
 (* Request::close, whenever it ends without an I/O error (reuse, or ConnectionReset because KeepConn was
    not set): after skipping to a record boundary WITHOUT writing anything, it writes exactly the pending
@@ -163,6 +163,41 @@ Theorem C07_one_handler_call_per_request :
   | Halt o w' => (o, w')
   end.
 Proof. exact run_loop_iteration. Qed.
+
+(* the trace of Token::run: `run_loop_tr` is run_loop with a ghost trace of the requests handed to the handler;
+   erasing the trace gives run_loop, same outcome, same world *)
+Theorem C07_trace_is_ghost :
+  forall (norm : bytes -> bytes) (maxc : N) (fuel : nat) (p : parser) (scripts : list (list N))
+    (served : nat) (w : world) (acc : list req),
+  fst (run_loop_tr norm maxc fuel p scripts served w acc) = run_loop norm maxc fuel p scripts served w.
+Proof. exact run_loop_tr_erase. Qed.
+
+(* MAIN, whole connection: for the one-outstanding client whose requests respect the buffer bound, the requests
+   handed to the handler are exactly the requests sent, in order, each once (the trace of Token::run with a
+   ghost trace, `run_loop_tr`, which erases to run_loop: C07_trace_is_ghost; a prefix of the sent requests if
+   the connection ends early) — on a fault-free transport, for every handler script (abandoned reads included),
+   readiness pattern and buffer size *)
+Theorem C07_requests_in_order :
+  forall (norm : bytes -> bytes) (maxc : N) (scripts : list (list N)) (B : N)
+    (cs : list (N * N * PeerTargets3.creq)) (pairss : list (list (bytes * bytes))) 
+    (w0 : world),
+  B < SIZE_LIMIT - 8 ->
+  scripts_ok true scripts ->
+  segs w0 = PeerTargets3.enc_client cs ->
+  PeerTargets3.client_segs 0 0 cs ->
+  wlog w0 = [] ->
+  no_fault (wscript w0) ->
+  length pairss = length cs ->
+  (forall (i : nat) (c : PeerTargets3.creq) (ps : list (bytes * bytes)),
+   nth_error (map snd cs) i = Some c -> nth_error pairss i = Some ps -> creq_fits B c ps) ->
+  len (flat (segs w0)) < SIZE_LIMIT ->
+  let tr := snd (run_loop_tr norm maxc (nb w0 + 4) (new_parser B) scripts 0 w0 []) in
+  exists m : nat,
+    tr =
+    firstn m
+      (map (fun cp : PeerTargets3.creq * list (bytes * bytes) => sent_request norm (fst cp) (snd cp))
+         (combine (map snd cs) pairss)).
+Proof. exact requests_in_order. Qed.
 
 (* non-vacuity of C07_handler_sees_exactly_the_request: a concrete connection (B = 160, a GetValues junk record inside
    the preamble, leftover = 5 bytes, two client segments, Pending reads and writes) satisfies every hypothesis *)
